@@ -15,6 +15,11 @@ void _ZN12QXmppMessageD2Ev(char *self) { ASSERT(C11_MSG(self)->alive, "QXmppMess
 void _ZN12QXmppMessage5parseERK11QDomElement(char *self, char *el) { struct c11_msg *g = C11_MSG(self); g->parsed = DN(el); g->nparse++; }
 void _ZN12QXmppMessage5parseERK11QDomElementN5QXmpp7SceModeE(char *self, char *el, uint32_t mode) { struct c11_msg *g = C11_MSG(self); g->parsed = DN(el); g->nparse++; }
 void _ZN12QXmppMessage18setCarbonForwardedEb(char *self, uint8_t on) { C11_MSG(self)->carbon = on ? 1 : 0; }
+/* QString members missing in models/qt_core.c (generally useful) */
+uint8_t _ZNK7QString10startsWithERKS_N2Qt15CaseSensitivityE(char *self, char *o, uint32_t cs) { QAD *a = *(QAD**)self, *b = *(QAD**)o; ASSERT(cs == 1, "case-insensitive compare not modelled");
+  return _ZN9QtPrivate10startsWithE11QStringViewS0_N2Qt15CaseSensitivityE(a->f1, (char*)qs_chars(a), b->f1, (char*)qs_chars(b), cs); }
+uint8_t _ZNK7QString8endsWithERKS_N2Qt15CaseSensitivityE(char *self, char *o, uint32_t cs) { QAD *a = *(QAD**)self, *b = *(QAD**)o; ASSERT(cs == 1, "case-insensitive compare not modelled");
+  return _ZN9QtPrivate8endsWithE11QStringViewS0_N2Qt15CaseSensitivityE(a->f1, (char*)qs_chars(a), b->f1, (char*)qs_chars(b), cs); }
 /* logging: no-op (DESIGN 2.5) */
 void _ZN13QXmppLoggable10logMessageEN11QXmppLogger11MessageTypeERK7QString(char *self, uint32_t type, char *msg) { }
 /* ---- client / configuration ---- */
